@@ -7,7 +7,7 @@ from ..core import Fail
 
 PID = "C09"
 RULE = ("shapes of all kinds (bounded, unbounded, holes, several components) x sequences of 1-4 transformations with "
-        "int / Fraction / float parameters (move; scale with positive factors; rotate by rational points of the unit "
+        "int / Fraction / float parameters, special values (0 / 1 in one coordinate only, identity, full and quarter turns) (move; scale with positive factors; rotate by rational points of the unit "
         "circle given as float angles, by arbitrary float angles, and in degrees); observables after every step: "
         "control points (exact for move/scale on rationals, 1e-9 otherwise), return value is the same object, area = "
         "|det| x area, first/second moments against the exact oracle on the mapped polygon, p in S vs T(p) in T(S) on "
@@ -47,9 +47,28 @@ def cases(ctx):
             yield {"shape": s, "seq": seq, "num": "float", "curved": True}
             continue
         yield {"shape": s, "seq": seq, "num": "frac" if i % 3 else "float"}
+    yield from _special_cases(rng, ctx.n(22, 220))
+
+
+def _special_cases(rng, n):
+    """parameter values that a short-cut or a truthiness test could single out: factors and offsets equal to 0 / 1 in one
+    coordinate only, in every numeric type, identity transformations, full and quarter turns"""
+    import math
+    specials = [("scale", (2, 1)), ("scale", (1, 3)), ("scale", (F(1, 3), 1)), ("scale", (1, F(5, 2))), ("scale", (4.0, 1.0)),
+                ("scale", (1.0, 0.5)), ("scale", (F(1), F(7, 2))), ("scale", (F(7, 2), F(1))), ("scale", (1, 1)), ("scale", (3, 3)),
+                ("move", (0, 5)), ("move", (F(-7, 3), 0)), ("move", (0.0, -2.5)), ("move", (0, 0)), ("move", (F(0), F(3, 4))),
+                ("rot", 0.0, False), ("rot", 0, True), ("rot", 360.0, True), ("rot", 90.0, True), ("rot", 2 * math.pi, False),
+                ("rot", -180.0, True), ("rot", math.pi / 2, False)]
+    for i in range(n):
+        s = G.any_shape(rng, R=8, den=1, kinds=("S", "C", "D", "U"))
+        tr = specials[i % len(specials)]
+        yield {"shape": s, "seq": [tr] if i % 3 else [tr, specials[(i * 7 + 3) % len(specials)]], "num": "frac" if tr[0] != "rot" else "float",
+               "special": True}
 
 
 def nontrivial(case):
+    if case.get("special"):
+        return True
     s = case["shape"]
     return s[0] in "CD" or (s[0] == "S" and not O.ccw(s[1])) or len(case["seq"]) >= 2
 
